@@ -130,7 +130,19 @@ def clang_ast(tu_rel, flags, filt):
 
 
 # pure static helpers called from the translated functions: fetched on demand, read in place (see Tr.pure_helper)
-HELPER_CTX = {"tu": None, "flags": None, "cache": {}}
+import threading
+_HELPER_TL = threading.local()      # one context per thread: the translation units are translated by a thread pool
+
+
+class _HelperCtx:
+    def update(self, tu, flags, cache):
+        _HELPER_TL.tu, _HELPER_TL.flags, _HELPER_TL.cache = tu, flags, cache
+
+    def __getitem__(self, k):
+        return getattr(_HELPER_TL, k, None if k != "cache" else {})
+
+
+HELPER_CTX = _HelperCtx()
 
 
 def helper_decl(name):
